@@ -115,8 +115,12 @@ class StepLoop(FunctionContract):
         ctx.ghost["completed"] = z3.IntVal(0)
         ctx.ghost["outcome"] = z3.IntVal(-1)
         ctx.ghost["switch_to"] = z3.Const("no_switch", PName)
-        for g in ("m", "GE", "log0_n", "log0_a", "cur0"):
-            ctx.ghost[g] = None
+        # per-step ghosts: defined at the start of every step (StepGen.for_loop), arbitrary before
+        ctx.ghost["m"] = z3.Int("m_before_first_step")
+        ctx.ghost["GE"] = z3.Function("GE_before_first_step", IntSort(), BodyEv)
+        ctx.ghost["log0_n"] = z3.Int("log0_n_before_first_step")
+        ctx.ghost["log0_a"] = z3.Const("log0_a_before_first_step", z3.ArraySort(IntSort(), Ev))
+        ctx.ghost["cur0"] = z3.Const("cur0_before_first_step", PName)
 
     def get_next_phase(self, ctx):
         return ctx.ghost["NP"]
@@ -181,7 +185,8 @@ class StepLoop(FunctionContract):
 
     loops = property(lambda self: {
         0: dict(shape="while True", inv=self.inv_while,
-                havoc_ghosts=["log_n", "log_a", "completed", "T", "DT", "NP", "outcome", "switch_to"]),
+                havoc_ghosts=["log_n", "log_a", "completed", "T", "DT", "NP", "outcome", "switch_to",
+                              "m", "GE", "log0_n", "log0_a", "cur0"]),
         1: dict(shape="for evt in self.run_single_step()", inv=self.inv_for, havoc_ghosts=["log_n", "log_a"]),
     })
 
